@@ -77,6 +77,33 @@ Theorem C03_filter_followed_iff :
 Proof. exact find_preds_followed_iff. Qed.
 Print Assumptions C03_filter_followed_iff.
 
+(* The same in terms of manifest content only (filters composed with the walk):
+   [followed_spec s fs x y]: the source lists y as a predecessor of x and y's manifest (artifact
+   type = artifactType, else config media type; annotations) satisfies every filter;
+   [anc_spec] its reflexive-transitive closure, [rpath] its k-step paths. *)
+Theorem C03_roots_unlimited_by_content :
+  forall (s : source) (fs : list filter) (rank : nat -> nat) (limit : Z) (node : desc)
+         (fuel : nat) (roots : list desc),
+    all_served_ok s -> acyclic_source s rank -> (limit <= 0)%Z ->
+    find_roots fuel s fs limit node = Some roots ->
+    (forall r, In r roots ->
+       anc_spec s fs (d_id node) (d_id r) /\ forall y, ~ followed_spec s fs (d_id r) y) /\
+    (forall a, anc_spec s fs (d_id node) a -> (forall y, ~ followed_spec s fs a y) -> In a (map d_id roots)) /\
+    (forall a, anc_spec s fs (d_id node) a -> exists r, In r roots /\ anc_spec s fs a (d_id r)).
+Proof. exact find_roots_unlimited_by_content. Qed.
+Print Assumptions C03_roots_unlimited_by_content.
+
+Theorem C03_depth_bounds_by_content :
+  forall (s : source) (fs : list filter) (rank : nat -> nat) (limit : Z) (node : desc)
+         (fuel : nat) (roots : list desc),
+    all_served_ok s -> acyclic_source s rank -> (0 < limit)%Z ->
+    find_roots fuel s fs limit node = Some roots ->
+    (forall r, In r roots ->
+       exists k, (Z.of_nat k <= limit)%Z /\ rpath (followed_spec s fs) k (d_id node) (d_id r)) /\
+    (exists r, In r roots /\ anc_spec s fs (d_id node) (d_id r)).
+Proof. exact find_roots_depth_by_content. Qed.
+Print Assumptions C03_depth_bounds_by_content.
+
 (* The pinned source (before the fix: commit c24ca78 of the repository branch)
    violated it: fetchArtifactType answered with the config media type of an image
    manifest that declares artifactType (defect F9). *)
@@ -87,6 +114,24 @@ Theorem C03_filter_exact_refuted_prefix :
     List.filter (fun id => re (effective_type s id)) (map d_id (s_preds s x)).
 Proof. exact find_preds_prefix_refuted. Qed.
 Print Assumptions C03_filter_exact_refuted_prefix.
+
+(* [served_ok] cannot be dropped: a served descriptor that carries fields which are not the
+   manifest's (the annotations / artifactType of the index entry that points to it -- what a
+   reloaded OCI layout served before fix fda86b1, audit F1) is judged on those fields; the
+   annotation filter follows a manifest without annotations, the type filter drops a manifest
+   whose effective type matches. *)
+Theorem C03_filter_exact_refuted_embedded :
+  let keyf := [FAnn (b "vnd.docker.reference.type") None] in
+  let typf := [FArt (Some (str_eqb (b "application/vnd.oci.image.config.v1+json")))] in
+  ~ Forall (served_ok embedded_source) (s_preds embedded_source 0) /\
+  map d_id (find_preds embedded_source keyf 0) = [1] /\
+  List.filter (fun id => forallb (fun f => keep_spec embedded_source f id) keyf)
+              (map d_id (s_preds embedded_source 0)) = [] /\
+  map d_id (find_preds embedded_source typf 0) = [] /\
+  List.filter (fun id => forallb (fun f => keep_spec embedded_source f id) typf)
+              (map d_id (s_preds embedded_source 0)) = [1].
+Proof. exact filter_exact_refuted_embedded. Qed.
+Print Assumptions C03_filter_exact_refuted_embedded.
 
 (* End to end, general form (any link relation, any "held" predicate).  [succ] is the link relation, [down succ a x]: x is reachable from a
    through links, [held x]: the destination holds x byte-identical after return.
@@ -131,7 +176,7 @@ Section ExtendedClosure.
   Hypothesis copy_only_C01 :
     forall x, held x -> initially x \/ exists r, In r roots /\ down succ (d_id r) x.
 
-  Theorem C03_depth_nothing_outside :
+  Theorem C03_depth_nothing_outside_gen :
     (0 < limit)%Z ->
     forall x, held x ->
       initially x \/
@@ -143,14 +188,17 @@ Section ExtendedClosure.
 End ExtendedClosure.
 Print Assumptions C03_extended_closure_gen.
 Print Assumptions C03_depth_own_graph_gen.
-Print Assumptions C03_depth_nothing_outside.
+Print Assumptions C03_depth_nothing_outside_gen.
 
-(* End to end with C01's theorem in the place of [copy_closure_C01]: [g] is C01's content
-   universe (Model/CopySpec.v), [reach g] its link reachability (foreign layers cut),
-   [has g final x]: the final destination holds x.  [copy_run_of g final r]: for root r
-   there is an accepted run of C01's copyGraph transition system with c_root = r that
-   returned success from a link-closed destination and whose destination content is part
-   of the final destination.  C01_closure (closure_lemma) supplies each root's graph. *)
+(* End to end with C01's transition system (Model/CopySpec.v) in the place of the Section
+   hypotheses: [g] is C01's content universe, [reach g] its link reachability (foreign layers
+   cut), [has g final x]: the final destination holds x.
+   [extended_copy_run g final roots]: the copy phase of ExtendedCopyGraph is ONE accepted run of
+   the copyGraph transition system in which every root found is dispatched (c_root = one root,
+   c_xroots = the others: one syncutil.Go, shared tracker, proxy and limiter), that returned
+   success from a link-closed destination and whose destination content is part of the final
+   destination.  Quantifying over the accepted trace quantifies over every interleaving of the
+   roots' visible events for every Concurrency.  C01's invariants give closure below every root. *)
 Theorem C03_extended_closure :
   forall (s : source) (fs : list filter) (limit : Z) (nd : desc) (rank : nat -> nat)
          (fuel : nat) (roots : list desc) (g : graph) (final : list node),
@@ -158,7 +206,7 @@ Theorem C03_extended_closure :
     (forall x p, In p (s_preds s x) -> In x (succ' g (d_id p))) ->
     mt_consistent g ->
     find_roots fuel s fs limit nd = Some roots ->
-    (forall r, In r roots -> copy_run_of g final (d_id r)) ->
+    extended_copy_run g final roots ->
     (limit <= 0)%Z ->
     forall a, anc s fs (d_id nd) a ->
     forall x, Proofs.CopySpec.reach g a x -> has g final x = true.
@@ -173,21 +221,52 @@ Theorem C03_depth_own_graph :
     (forall x p, In p (s_preds s x) -> In x (succ' g (d_id p))) ->
     mt_consistent g ->
     find_roots fuel s fs limit nd = Some roots ->
-    (forall r, In r roots -> copy_run_of g final (d_id r)) ->
+    extended_copy_run g final roots ->
     forall x, Proofs.CopySpec.reach g (d_id nd) x -> has g final x = true.
 Proof. exact depth_own_graph_C01. Qed.
 Print Assumptions C03_depth_own_graph.
 
-(* satisfiable: C01's example run (g_ex, c_ex, tr_ex) is the copy of the one root above blob 1 *)
-Example C03_ex_C01_bridge :
-  exists final,
-    acyclic_source ex_src_c01 (fun x => x) /\
-    (forall x p, In p (s_preds ex_src_c01 x) -> In x (succ' g_ex (d_id p))) /\
-    mt_consistent g_ex /\
-    find_roots (fuel_for ex_src_c01 4) ex_src_c01 [] 0%Z (mkDesc 1 [] None) = Some [mkDesc 3 [] None] /\
-    (forall r, In r [mkDesc 3 [] None] -> copy_run_of g_ex final (d_id r)) /\
-    present_nodes g_ex final = [0; 1; 2; 3].
-Proof. exact ex_c01_bridge. Qed.
+(* Depth = d: nothing new outside the graphs of ancestors at most d steps away -- for every run
+   (successful or not, any prefix) of the copy phase that dispatches only roots that findRoots
+   returned; [d0] is what the destination held before *)
+Theorem C03_depth_nothing_outside :
+  forall (s : source) (fs : list filter) (limit : Z) (nd : desc) (rank : nat -> nat)
+         (fuel : nat) (roots : list desc) (g : graph) (d0 final : list node),
+    acyclic_source s rank -> (0 < limit)%Z ->
+    find_roots fuel s fs limit nd = Some roots ->
+    extended_copy_run_only g d0 final roots ->
+    forall x, In x final ->
+      In x d0 \/
+      exists a k, (Z.of_nat k <= limit)%Z /\ anc_steps s fs k (d_id nd) a /\ Proofs.CopySpec.reach g a x.
+Proof. exact depth_nothing_outside_C01. Qed.
+Print Assumptions C03_depth_nothing_outside.
+
+(* any Depth, any filter: nothing new outside the graphs of the followed ancestors *)
+Theorem C03_nothing_outside :
+  forall (s : source) (fs : list filter) (limit : Z) (nd : desc) (rank : nat -> nat)
+         (fuel : nat) (roots : list desc) (g : graph) (d0 final : list node),
+    acyclic_source s rank ->
+    find_roots fuel s fs limit nd = Some roots ->
+    extended_copy_run_only g d0 final roots ->
+    forall x, In x final ->
+      In x d0 \/ exists a, anc s fs (d_id nd) a /\ Proofs.CopySpec.reach g a x.
+Proof. exact nothing_outside_C01. Qed.
+Print Assumptions C03_nothing_outside.
+
+(* satisfiable with two roots sharing a child (blob 0 <- manifests 1, 2): one accepted run,
+   Concurrency 2, the two roots' events interleaved, the shared blob copied once *)
+Example C03_ex_two_roots :
+  acyclic_source src_two (fun x => x) /\
+  (forall x p, In p (s_preds src_two x) -> In x (succ' g_two (d_id p))) /\
+  mt_consistent g_two /\
+  find_roots (fuel_for src_two 3) src_two [] 0%Z (mkDesc 0 [] None)
+    = Some [mkDesc 2 [] None; mkDesc 1 [] None] /\
+  extended_copy_run g_two [1; 2; 0] [mkDesc 2 [] None; mkDesc 1 [] None].
+Proof. exact ex_two_roots. Qed.
+
+Example C03_ex_two_roots_only :
+  extended_copy_run_only g_two [] [1; 2; 0] [mkDesc 2 [] None; mkDesc 1 [] None].
+Proof. exact ex_two_roots_only. Qed.
 
 (* ExtendedCopy = Resolve; ExtendedCopyGraph; Tag: on success the destination
    reference (source reference when left blank) names the given node *)
@@ -207,6 +286,9 @@ Proof. exact ex_acyclic. Qed.
 
 Example C03_ex_consistent : forall x, Forall (served_ok ex_source) (s_preds ex_source x).
 Proof. exact ex_served_ok. Qed.
+
+Example C03_ex_all_served_ok : all_served_ok ex_source.
+Proof. exact ex_all_served_ok. Qed.
 
 (* a ReferrerLister source (remote repository) serving complete referrer descriptors *)
 Example C03_ex_remote_ok : forall x, Forall (served_ok ex_remote) (s_preds ex_remote x).
